@@ -5,7 +5,7 @@ ENGINES = [
      'kind_free_text': 'whole-crate call graph (fn items as values and closures are edges, CHA for unresolved trait calls) and transitive effect sets'},
     {'name': 'E3 bit-precise evaluator', 'path': 'analysis/bits.py', 'serves_properties': ['C12'],
      'kind_free_text': 'integers as vectors of bits, each bit a truth table over <= 8 named input bits; byte arrays at constant offsets; loop-free code only'},
-    {'name': 'E2 event automata', 'path': 'analysis/cfg.py analysis/pkt.py', 'serves_properties': ['C03', 'C08', 'C10', 'C11'],
+    {'name': 'E2 event automata', 'path': 'analysis/cfg.py analysis/pkt.py', 'serves_properties': ['C03', 'C08', 'C09', 'C10', 'C11'],
      'kind_free_text': 'forward data-flow of (automaton state, known enum variants) over the MIR CFG with per-callee summaries; keeps Ok/Err outcomes apart until the ? has branched'},
 ]
 NOTES = ('Static analysis only: no registered check executes dnssector code or calls a solver. Each ./check re-extracts MIR facts from '
@@ -87,5 +87,15 @@ CHECKS['C12'] = {
              'is_response (both) and the count getters each result bit equals the specified header bit and the header is untouched; getter(setter(a)) is evaluated directly as well. '
              'Every bit is an exact function of <= 2 input bits, so truth-table equality covers every input; a bit the evaluator cannot track is reported, never passed.'),
     'note': 'Trusted: the transcription of RFC 1035 4.1.1 in rules/C12.py, the transfer functions of analysis/bits.py, rustc MIR. Panics on a missing packet (packet() on None) are outside this property.',
+}
+CHECKS['C09'] = {
+    'engine': 'E2 event automata + E3 layout', 'level': 'other',
+    'technique': 'per-section path automata extracting the insertion / shift / count tables from the MIR, bit-exact setter-vs-getter field check, pointer-free typestate',
+    'design_ref': 'DESIGN.md section 4, C09',
+    'text': ('Decides: (b) set_rr_ttl writes bit-exactly the field rr_ttl reads; set_rr_ip writes [10,14)/[10,26) where rr_ip reads, 4 bytes under Type::A and 16 under Type::AAAA; rrcount_inc/dec read and write the same header count per Section and step by one; '
+             '(c) insertion_offset consults exactly the later sections\' offsets in wire order; insert_rr per Section records its own start and shifts exactly the later offsets plus offset_edns; (d) exactly one rrcount_inc of the section argument on every successful path; '
+             '(e) insert_rr / set_raw_name / delete resize the buffer or overwrite name bytes only on paths where maybe_compressed is known false (so no other record\'s pointer is invalidated). '
+             'The splice geometry (C09.a) is decided by the E4 clause when built. Byte identity of all other records after an operation is a run-time equality and is NOT decided.'),
+    'note': 'Structural clauses only. Trusted: tables/rfc_layout.json, rustc MIR, rule engines.',
 }
 NOT_APPLICABLE = {('C%02d' % i): PENDING for i in range(1, 19) if ('C%02d' % i) not in CHECKS}
